@@ -30,7 +30,7 @@ THEOREMS = [
         "C12_log_value_invalid", "C12_log_ad_complement", "C12_log_is_one_one", "C12_log_is_zero_zero",
         "C12_log_result",
         # symbolic semiring: eval is a homomorphism from the string-building operations
-        "C12_sym_eval_of_lang", "C12_sym_atom", "C12_sym_plus", "C12_sym_times", "C12_sym_negate",
+        "C12_sym_eval_of_lang", "C12_sym_atom", "C12_sym_value_numeral", "C12_sym_value_compound", "C12_sym_value_sum", "C12_sym_plus", "C12_sym_times", "C12_sym_negate",
         "C12_sym_normalize", "C12_sym_tree", "C12_sym_is_one_one", "C12_sym_is_zero_zero", "C12_sym_normalize_one",
         # base-class defaults, for every semiring that inherits them
         "C12_base_is_one", "C12_base_is_zero", "C12_base_normalize_one", "C12_base_true_false",
@@ -347,8 +347,14 @@ def build_queries(ctx, rng):
     for x in strs:
         for m in ("is_one", "is_zero", "in_domain", "result", "negate"):
             add(c, m, [x], [S.wire(x)])
-        add(c, "pos_value", [x, 2], [S.wire(x), "2"])
-        add(c, "neg_value", [x, 2], [S.wire(x), "2"])
+    # labels as `value`/`pos_value`/`neg_value` receive them: atoms and numbers (text, Constant) and compound terms; a
+    # plain str whose text looks compound is never a label (the model sees only the text of a label)
+    from problog.logic import Term, Constant
+    for x in ["0", "1", "0.5", Constant(0.5), Constant(1), Term("p_a"), Term.from_string("0.3+0.2"),
+              Term.from_string("0.5*0.5"), Term.from_string("1-0.25"), Term.from_string("t(0.5)")]:
+        add(c, "value", [x], [S.wire(str(x))])
+        add(c, "pos_value", [x, 2], [S.wire(str(x)), "2"])
+        add(c, "neg_value", [x, 2], [S.wire(str(x)), "2"])
     for a, b in itertools.product(strs, repeat=2):
         add(c, "ad_negate", [a, b], [S.wire(a), S.wire(b)])
         add(c, "normalize", [a, b], [S.wire(a), S.wire(b)])
@@ -474,14 +480,33 @@ def symbolic(ctx, drv, objs, rng):
     for a in ATOMS:
         pool.append((sr.value(a), Fraction(a)))  # (string, the exact value it denotes)
         q("value", [a], sr.value(a))
+    # labels as the formula hands them to `value`: Constants and compound arithmetic terms (`(0.2+0.1)::a`); the
+    # model receives their text.  What `value` returns must denote the label's number AS ONE FACTOR: it joins the pool,
+    # so that the products and negations built from it are checked by the oracle below.
+    from problog.logic import Term, Constant
+    labels = [Constant(0.5), Constant(1), Constant(0.25), Term.from_string("0.2+0.1"), Term.from_string("0.5*0.5"),
+              Term.from_string("1-0.25"), Term.from_string("0.1+0.2+0.3"), Term.from_string("(0.1+0.2)*0.5"),
+              Term.from_string("0.6/2"), Term.from_string("0.5-0.25"), Term.from_string("0.2+0.1*2")]
+    for t in labels:
+        ctx.count("symbolic value of a %s label" % ("compound" if t.arity > 0 else "constant"))
+        try:
+            r = sr.value(t)
+            if not isinstance(r, str):
+                raise TypeError("returns %r" % (r,))
+        except Exception as e:
+            fails.append(("value", [str(t)], "<%s>" % type(e).__name__, str(exact_eval("(%s)" % t)), None))
+            continue
+        q("value", [str(t)], r)
+        pool.append((r, exact_eval("(%s)" % t)))
+    natoms = len(pool)
     for n in range(ntrees):
         op = rng.choice(["plus", "times", "negate", "normalize", "plus", "times"])
-        (a, va) = rng.choice(pool) if rng.random() < 0.7 else rng.choice(pool[:len(ATOMS)])
-        (b, vb) = rng.choice(pool) if rng.random() < 0.7 else rng.choice(pool[:len(ATOMS)])
+        (a, va) = rng.choice(pool) if rng.random() < 0.7 else rng.choice(pool[:natoms])
+        (b, vb) = rng.choice(pool) if rng.random() < 0.7 else rng.choice(pool[:natoms])
         if len(a) + len(b) > 160:
-            (b, vb) = rng.choice(pool[:len(ATOMS)])
+            (b, vb) = rng.choice(pool[:natoms])
             if len(a) > 160:
-                (a, va) = rng.choice(pool[:len(ATOMS)])
+                (a, va) = rng.choice(pool[:natoms])
         if op == "normalize" and vb == 0:
             continue
         args = [a] if op == "negate" else [a, b]
@@ -496,7 +521,8 @@ def symbolic(ctx, drv, objs, rng):
             fails.append((op, args, "<%s>" % type(e).__name__, str(v), None))
             continue
         q(op, args, r)
-        q("eval", [r], None)
+        if "0.1+0.2+0.3" not in r:  # a chained sum inside a label: outside the grammar of the MODEL's evaluator (the
+            q("eval", [r], None)    # oracle below still evaluates it)
         # independent oracle: the exact value of the built string is the operation applied to the exact values of the
         # operand strings (each check is local: the pool keeps what a string really denotes)
         got = exact_eval(r)
